@@ -140,7 +140,7 @@ func RunSDL(root string, emit func(PairLine) error) (files, pairs, accepted int,
 			m := dm.mani
 			verr := validation.ValidateManifest(m)
 			cerr := validation.ValidateManifestWithDeployment(&m, dd.groups)
-			r := SchemeResult{Scheme: -1, Valid: verr == nil, Cross: classify(cerr),
+			r := SchemeResult{Scheme: -1, Valid: verr == nil, Cross: classify(cerr), CrossOK: cerr == nil,
 				CrossGS: classify(validation.ValidateManifestWithGroupSpecs(&m, groupSpecs(dd.groups))),
 				ResRej:  cerr != nil && errors.Is(cerr, validation.ErrManifestCrossValidation), Accepted: verr == nil && cerr == nil}
 			if cerr != nil {
